@@ -157,6 +157,10 @@ fn main() {
         "c18child" => c18::run_child(&args),
         #[cfg(feature = "c18")]
         "c18e2e" => c18::run_e2e(&args),
+        #[cfg(feature = "c18")]
+        "c18fea" => c18::run_fea("c18fea", &args),
+        #[cfg(feature = "c18")]
+        "c18feax" => c18::run_fea("c18feax", &args),
         #[cfg(feature = "c12")]
         "c12e2e" => c12::run(&args),
         #[cfg(feature = "c12")]
